@@ -254,7 +254,21 @@ def _r5(ctx):
         if leaves["none"] is None:
             ctx.unrec("R5", "default-mode comparison", (NF, line), f"mode dispatch not recognised: {show(v)[:100]}")
             continue
-        ok = leaves["none"] == RL
+        from ..valueflow import as_map
+        leaf = strip_transparent(simp(leaves["none"]))
+        while leaf[0] == "copy":
+            leaf = strip_transparent(simp(leaf[1]))
+        mp = as_map(leaf) if leaf[0] == "comp" else None
+        if mp is not None and strip_transparent(simp(mp[2])) == RL and not mp[3] and mp[1] == mp[0]:
+            leaf = RL                                   # [r for r in self.reaction_list]: the reactions themselves
+        ok = leaf == RL
+        if not ok:
+            # understood and wrong: one key per reaction, derived from it, that is not the reaction and does not look at both bounds
+            derived = mp is not None and strip_transparent(simp(mp[2])) == RL and mp[1] != mp[0] and any(x == mp[0] for x in walk(mp[1])) \
+                and not all(any(x == ("attr", mp[0], a_) for x in walk(mp[1])) for a_ in ("temp_min", "temp_max"))
+            if not derived:
+                ctx.unrec("R5", "default-mode comparison", (NF, line), f"cannot see what the default mode compares: {show(leaf)[:100]}")
+                continue
         ctx.check(ok, "R5", "default-mode comparison", (NF, line),
                   "the default mode compares the reactions themselves (temperature window included)" if ok else
                   "the default mode does not compare the reactions themselves: reactions that differ only in their temperature window (the pieces of a "
@@ -285,7 +299,13 @@ def _r1(ctx):
             ctx.unrec("R1", "_assign_rates:return", (FILE, rets[0].line), "returned value is not a single comprehension (or one-append-per-iteration loop) over the reactions")
             return
         it, ifs, elt0 = lb[0].iter, (), lb[1]
-    R = ("param", "reactions")
+    # the reaction list and the array symbol by ROLE: the parameters of the function (after self) that are, in the signature of the
+    # callers (`self._assign_rates(rate_sym, reactions, grains)`), the first and the second -- whatever they are called
+    pnames = [a.arg for a in fn.args.args if a.arg not in ("self", "cls")]
+    if len(pnames) < 2:
+        ctx.unrec("R1", "_assign_rates:signature", W, "expected (self, <array symbol>, <reactions>[, <grains>])")
+        return
+    R, SYM = ("param", pnames[1]), ("param", pnames[0])
     # the statements enumerate zip(guards, rate expressions), both position-preserving views of `reactions`
     import builtins
     import os
@@ -413,6 +433,19 @@ def _r1(ctx):
                   "cannot see how the statements are paired with the reactions (expected enumerate(zip(guards, rates)) over views of `reactions`): " + show(it)[:160])
         return
     ok_it = all(b_ == R and not f_ for b_, f_ in srcs) and not ifs
+
+    def of_R(b_):
+        """R itself or a visible re-ordering / selection / slice of it"""
+        if b_ == R:
+            return True
+        if b_[0] == "call" and b_[1][0] == "global" and b_[2]:
+            return any(of_R(x) for x in b_[2])
+        return b_[0] == "sub" and of_R(b_[1])
+    if not ok_it and not all(of_R(b_) for b_, _ in srcs):
+        # views of something else than the reaction list (an attribute, another parameter): not traced back to `reactions`
+        ctx.unrec("R1", "_assign_rates:iteration", (FILE, rets[0].line), "the guards / rate expressions range over something this rule cannot trace back to the reaction list: "
+                  + ", ".join(sorted({show(b_)[:40] for b_, _ in srcs if not of_R(b_)}))[:160])
+        return
     ctx.check(ok_it, "R1", "_assign_rates:iteration", (FILE, rets[0].line),
               "statements are built over enumerate(zip(guards, rates)) where both are unfiltered one-to-one views of the same `reactions` list",
               found=show(it)[:200])
@@ -472,6 +505,24 @@ def _r1(ctx):
     lo = ("cmp", ("Gt",), (("attr", r, "temp_min"), ("const", 0)))
     hi = ("cmp", ("Gt",), (("attr", r, "temp_max"), ("const", 0)))
     conds = {x for x in walk(elt) if isinstance(x, tuple) and x and x[0] == "cmp"}
+    # one spelling of a comparison of a bound with a number: the bound on the left (`0 < r.temp_min` is `r.temp_min > 0`)
+    FLIP = {"Lt": "Gt", "Gt": "Lt", "LtE": "GtE", "GtE": "LtE", "Eq": "Eq", "NotEq": "NotEq"}
+
+    def bound_test(c):
+        """(attribute, operator, number) of a comparison of a bound of reaction r with a numeric literal, else None"""
+        if len(c[1]) != 1 or len(c[2]) != 2 or c[1][0] not in FLIP:
+            return None
+        (a_, b_), op = c[2], c[1][0]
+        if b_[0] == "attr" and a_[0] == "const":
+            a_, b_, op = b_, a_, FLIP[op]
+        if a_[0] == "attr" and a_[1] == r and a_[2] in ("temp_min", "temp_max") and b_[0] == "const" and isinstance(b_[1], (int, float)) and not isinstance(b_[1], bool):
+            return a_[2], op, b_[1]
+        return None
+    assume_of = {}          # condition -> (which bound, truth value when the bound is present)
+    for c in conds:
+        bt = bound_test(c)
+        if bt is not None and bt[2] == 0 and bt[1] in ("Gt", "LtE"):
+            assume_of[c] = (bt[0], bt[1] == "Gt")
     def untraced(c):
         """c is the presence test itself on a comprehension variable (or an element the rule could not compose to this position):
         the right test, whose reaction was not traced -- not evidence of a wrong test"""
@@ -485,11 +536,19 @@ def _r1(ctx):
         ctx.unrec("R1", "_assign_rates:presence-tests", (FILE, rets[0].line), "cannot trace the condition(s) that shape the statement back to the reaction of the same position: "
                   + ", ".join(sorted(show(c) for c in loose))[:160])
         return
-    ctx.check(conds == {lo, hi}, "R1", "_assign_rates:presence-tests", (FILE, rets[0].line),
-              "a bound is present iff it is > 0 (temp_min > 0, temp_max > 0 of the same reaction); no other condition shapes the statement",
-              expected="r.temp_min > 0, r.temp_max > 0", found=", ".join(sorted(show(c) for c in conds)))
-    if conds != {lo, hi}:
+    # understood and wrong: a bound of the same reaction compared with a number in another way (>= 0, > 1, != 0); anything else that
+    # shapes the statement (a test on the text of the guard, on something the rule does not know) is not a verdict
+    wrong = [c for c in conds if c not in assume_of and bound_test(c) is not None]
+    other = [c for c in conds if c not in assume_of and bound_test(c) is None]
+    good = {w for w, _ in assume_of.values()} == {"temp_min", "temp_max"}
+    # (a bound that is never tested shows in the variants below: the statement does not change with it)
+    if wrong or not other:
+        ctx.check(not wrong, "R1", "_assign_rates:presence-tests", (FILE, rets[0].line),
+                  "a bound is present iff it is > 0 (temp_min > 0, temp_max > 0 of the same reaction); no other condition shapes the statement",
+                  expected="r.temp_min > 0, r.temp_max > 0", found=", ".join(sorted(show(c) for c in conds)))
+    if wrong:
         return
+    n_before = len(ctx.obs)
     idx = ("idx", R, L)
     want = {
         (False, False): r"^(?P<s>H\d+_)\[(?P<i>H\d+_)\] = (?P<e>H\d+_);$",
@@ -499,13 +558,20 @@ def _r1(ctx):
     }
     names = {(False, False): "no window", (True, False): "lower bound only", (False, True): "upper bound only", (True, True): "both bounds"}
     for has_lo, has_hi in itertools.product([False, True], repeat=2):
-        pe = peval(elt, {lo: has_lo, hi: has_hi})
+        pe = peval(elt, {c: ((has_lo if w == "temp_min" else has_hi) == pol) for c, (w, pol) in assume_of.items()})
         lw = lower(pe)
         key = f"_assign_rates:variant[{names[(has_lo, has_hi)]}]"
         m = re.match(want[(has_lo, has_hi)], lw.text)
         if not m and (re.search(r"SEQ\d+_", lw.text) or "=" not in re.sub(r"[HS]E?Q?\d+_", "", lw.text)):
             # the statement text could not be reconstructed (an opaque piece where the assignment should be): not a verdict on its shape
             ctx.unrec("R1", key, (FILE, rets[0].line), f"cannot reconstruct the text of the generated statement: {lw.text[:100]!r}")
+            continue
+        def known_hole(x):
+            x = x[1] if x[0] == "fmt" else x
+            return x in (SYM, idx) or (x[0] == "attr" and x[1] == r) or (x[0] == "meth" and x[2] == "rateexpr") or x[0] == "const" \
+                or (x[0] in ("phi", "ifexp") and all(known_hole(y) for y in x[2:4]))
+        if not m and not all(known_hole(x) for x in lw.holes.values()):
+            ctx.unrec("R1", key, (FILE, rets[0].line), f"cannot reconstruct the text of the generated statement (a piece whose text is unknown): {lw.text[:100]!r}")
             continue
         if not m:
             ctx.bad("R1", key, (FILE, rets[0].line), "generated statement has the wrong guard shape",
@@ -514,15 +580,19 @@ def _r1(ctx):
         # ({x} and {x:d} / %d of an integer counter print the same digits)
         hv = {k: (x[1] if x[0] == "fmt" and (x[2] is None or (x[2] == "d" and x[1][0] == "idx")) else x) for k, x in lw.holes.items()}
         g = m.groupdict()
-        probs = []
-        if hv[g["s"]] != ("param", "rate_sym"):
-            probs.append(f"array symbol is {show(hv[g['s']])}")
+        probs, unread = [], []
+
+        def plain(x):
+            """built from constants, parameters, counters and attributes of reactions only: a value the rule reads completely"""
+            return all(not (isinstance(y, tuple) and y and y[0] in ("call", "meth", "unknown", "acc", "carried", "after", "sub", "item")) for y in walk(x))
+        if hv[g["s"]] != SYM:
+            (probs if hv[g["s"]][0] in ("const", "param") else unread).append(f"array symbol is {show(hv[g['s']])}")
         if hv[g["i"]] != idx:
-            probs.append(f"index is {show(hv[g['i']])}, not the enumerate counter of the same reaction")
+            (probs if plain(hv[g["i"]]) else unread).append(f"index is {show(hv[g['i']])}, not the enumerate counter of the same reaction")
         if "lo" in g and g.get("lo") and hv[g["lo"]] != ("attr", r, "temp_min"):
-            probs.append(f"lower bound is {show(hv[g['lo']])}")
+            (probs if plain(hv[g["lo"]]) else unread).append(f"lower bound is {show(hv[g['lo']])}")
         if "hi" in g and g.get("hi") and hv[g["hi"]] != ("attr", r, "temp_max"):
-            probs.append(f"upper bound is {show(hv[g['hi']])}")
+            (probs if plain(hv[g["hi"]]) else unread).append(f"upper bound is {show(hv[g['hi']])}")
         e = hv[g["e"]]
         # every alternative (with / without grains) must BE reac.rateexpr(..) of the same reaction: not a wrapper that may
         # substitute another text, not a copy of another coefficient
@@ -532,10 +602,21 @@ def _r1(ctx):
             return [x]
         lv = leaves(simp(e))
         if not lv or any(not (isinstance(x, tuple) and len(x) == 5 and x[0] == "meth" and x[2] == "rateexpr" and x[1] == r) for x in lv):
-            probs.append(f"rate expression is {show(e)[:80]}, not rateexpr() of the same reaction")
+            # understood and wrong: the rate text of a reaction (of this or another position) rewritten / replaced by a reference to
+            # another coefficient; not understood: a value in which no rateexpr() can be seen at all
+            seen_rate = any(isinstance(y, tuple) and len(y) == 5 and y[0] == "meth" and y[2] == "rateexpr" for x in lv for y in walk(x)) \
+                or any(y == SYM for x in lv for y in walk(x))
+            (probs if seen_rate else unread).append(f"rate expression is {show(e)[:80]}, not rateexpr() of the same reaction")
+        if unread and not probs:
+            ctx.unrec("R1", key, (FILE, rets[0].line), "cannot read a piece of the generated statement: " + "; ".join(unread)[:200])
+            continue
         ctx.check(not probs, "R1", key, (FILE, rets[0].line),
                   f"{names[(has_lo, has_hi)]}: {lw.text!r}" if not probs else "; ".join(probs),
                   found=lw.text)
+    if other and all(o.outcome == "DISCHARGED" for o in ctx.obs[n_before:]):
+        # every variant came out right although a condition the rule cannot read takes part: not a verdict
+        ctx.unrec("R1", "_assign_rates:presence-tests", (FILE, rets[0].line), "the statement is shaped by conditions this rule cannot read as `bound > 0`: "
+                  + ", ".join(sorted(show(c) for c in other))[:160])
 
 
 def _blocks(code):
@@ -1005,6 +1086,13 @@ def _krome_window_stores(ctx, pkg, fn):
     fl = Flow(_parser(pkg, "KROMEReaction"), KROME, resolver=res, func_resolver=lambda name: pkg.functions.get((KROME, name)), raise_arms=True)
     want_ops = {"<", ">", ".LE.", ".GE.", ".LT.", ".GT."}
     want_none = {"N", "NONE", "N/A", "NO", ""}
+    # (a float() inside try/except may leave the no-bound words to the handler; helpers still called through self / setattr with a
+    # computed name may store what the rule does not see)
+    has_try = any(isinstance(n, ast.Try) for n in ast.walk(fl.func))
+    hidden = any(isinstance(c, ast.Call) and ((isinstance(c.func, ast.Name) and c.func.id == "setattr")
+                                              or (isinstance(c.func, ast.Attribute) and isinstance(c.func.value, ast.Name) and c.func.value.id in ("self", "cls")
+                                                  and c.func.attr not in KEEP and pkg.resolve("KROMEReaction", c.func.attr)[1] is not None and res(c.func.attr) is None))
+                 for c in ast.walk(fl.func))
     ctx.__dict__["_c06_krome_flow"] = fl
     stores = [f for f in fl.facts if f.kind == "attrstore" and f.target in ("temp_min", "temp_max") and f.extra.get("obj") == ("param", "self")]
     if not stores:
@@ -1131,13 +1219,16 @@ def _krome_window_stores(ctx, pkg, fn):
         kk = f"KROME:{which}:no-bound spellings"
         if want_none <= nones:
             ctx.ok("R4", kk, W, "N / NONE / N/A / NO / empty keep the default (unbounded)")
-        elif seen_test or not other_tests:
+        elif (seen_test or not other_tests) and not has_try:
             ctx.bad("R4", kk, W, "N / NONE / N/A / NO / empty must keep the default (unbounded): a spelling that is not excluded reaches float()", expected=str(sorted(want_none)), found=str(sorted(nones)))
         else:
             ctx.unrec("R4", kk, W, "the no-bound spellings are tested in a way this rule cannot decide: " + "; ".join(show(c)[:60] for c in other_tests)[:160])
     if decided:
         for which in ("tmin", "tmax"):
             if which not in seen and not any(o.rule == "R4" and o.key.startswith(f"KROME:{which}:") for o in ctx.obs):
+                if hidden:
+                    ctx.unrec("R4", f"KROME:{which}:target", (KROME, fn.lineno), f"no plain store of the {which} column is visible (attributes are also set indirectly)")
+                    continue
                 ctx.bad("R4", f"KROME:{which}:target", (KROME, fn.lineno), f"the {which} column is never stored into self.temp_{which[1:]}")
     return decided
 
@@ -1200,7 +1291,11 @@ def _uclchem_freeze(ctx, pkg):
             got[attr] = v[1]
         else:
             unread.append(f"self.{attr} = {show(v)[:60]}")
-    if not atoms and stores and all(simp(f.value)[0] == "call" and simp(f.value)[1] == ("global", "float") for f in stores):
+    elsewhere = [m_ for m_, node in pkg.cls("UCLCHEMReaction").methods.items() if m_ != "_parse_string" and pkg.resolve("UCLCHEMReaction", "_parse_string")[0] == "UCLCHEMReaction"
+                 and any(isinstance(n, ast.Attribute) and isinstance(n.ctx, ast.Store) and n.attr in ("temp_min", "temp_max") for n in ast.walk(node))]
+    if not atoms and stores and elsewhere:
+        ctx.unrec("R4", "UCLCHEM:FREEZE window", W, f"the window is also stored outside _parse_string ({', '.join(elsewhere)}): where freeze-out reactions get (0, 30) is not decided here")
+    elif not atoms and stores and all(simp(f.value)[0] == "call" and simp(f.value)[1] == ("global", "float") for f in stores):
         ctx.bad("R4", "UCLCHEM:FREEZE window", W, "no store of the temperature window depends on the reaction type being UCLCHEM_FR: freeze-out reactions keep the window of the file "
                                                   "instead of (0, 30)", expected="lt, ut = 0, 30 for UCLCHEM_FR", found="; ".join(show(simp(f.value))[:40] for f in stores))
     elif unread or not atoms:
